@@ -105,7 +105,10 @@ def code_lines(path):
 
 def mutants(rng):
     pool = []
+    only = os.environ.get("SWEEP_FILES")          # optional regex on the relative path
     for rel in FUNC_CHECKS:
+        if only and not re.search(only, rel):
+            continue
         path = os.path.join(REPO, rel)
         for ln, text, fn in code_lines(path):
             code = text.split("#")[0]
